@@ -24,6 +24,7 @@ def finish(o):
             c08_combiner(o, nid, nr, T)
         if nr.type in ("machine", "splitter", "combiner", "source"):
             c15_node(o, nid, nr, T)
+    timed_edges(o, T)
     c18_all(o, T)
     c17_all(o, T)
     liveness(o, T)
@@ -546,3 +547,111 @@ def liveness(o, T):
             held = {n: list(nr.held) for n, nr in o.nrec.items() if nr.held}
             o.violate("C03", "not-drained", meta.get("template", "?"), f"finite input ended at {meta.get('t_input_end')}, at T={T}: generated {gen}, "
                       f"received {recv}, discarded {disc}; still in edges {stuck}, in nodes {held}")
+
+
+# ---- C11 / C12 / C14 on the edges of whole factories (same oracles as Layer A, fed from the observer log) ------------------
+class _Rec:
+    __slots__ = ("name", "put_t", "put_seq", "avail_t", "avail_seq", "got_t", "got_seq", "d")
+
+    def __init__(self, name):
+        self.name = name
+        self.put_t = self.put_seq = self.avail_t = self.avail_seq = self.got_t = self.got_seq = self.d = None
+
+
+class _FleetView:
+    """What oracle_fleet.check_fleet needs, for one Fleet edge of a factory."""
+
+    def __init__(self, o, eid, recs, hist, T):
+        er = o.erec[eid]
+        self.cfg = {"transit": er.spec.get("transit", 0), "delay": er.spec.get("delay", 1), "cap": er.cap}
+        self.items = {r.name: r for r in recs}
+        self.hist = hist
+
+        class _E:
+            now = T
+        self.env = _E()
+        self._o, self._eid = o, eid
+
+    def violate(self, prop, oracle, msg, feat=(), extra=""):
+        self._o.violate(prop, oracle, "fleet(in factory)", f"edge {self._eid}: {msg}", extra)
+
+    def probe(self, k):
+        self._o.probe(k)
+
+
+def timed_edges(o, T):
+    run = o.run
+    per = {}
+    k = 0
+    for r in run.log:
+        if r[0] in ("put", "get", "avail"):
+            eid = r[3]
+            d = per.setdefault(eid, {"recs": {}, "hist": [], "draws": []})
+            iid = r[5] if r[0] != "avail" else r[4]
+            rec = d["recs"].get(iid)
+            if rec is None:
+                rec = d["recs"][iid] = _Rec(iid)
+            k += 1
+            if r[0] == "put":
+                rec.put_t, rec.put_seq = r[2], k
+                d["hist"].append(("put", r[1], r[2], iid, r[4]))
+            elif r[0] == "get":
+                rec.got_t, rec.got_seq = r[2], k
+                d["hist"].append(("get", r[1], r[2], iid, r[4]))
+            else:
+                rec.avail_t, rec.avail_seq = r[2], k
+        elif r[0] == "edelay":
+            per.setdefault(r[3], {"recs": {}, "hist": [], "draws": []})["draws"].append(r[4])
+    for eid, d in per.items():
+        er = o.erec[eid]
+        recs = sorted([r for r in d["recs"].values() if r.put_t is not None], key=lambda r: r.put_seq)
+        if not recs:
+            continue
+        if er.type == "buffer":
+            spec = er.spec.get("delay", 0)
+            const = const_of(spec)
+            for i, r in enumerate(recs):
+                dd = const if const is not None else (d["draws"][i] if i < len(d["draws"]) else None)
+                if dd is None:
+                    continue
+                ready = r.put_t + dd
+                if r.avail_t is not None and r.avail_t != ready:
+                    o.violate("C11", "buffer-delay", o.elabel(eid), f"edge {eid}: {r.name} put at {r.put_t} with drawn delay {dd} became retrievable at {r.avail_t}")
+                    break
+                if r.avail_t is None and T >= ready and T > r.put_t + dd:
+                    o.violate("C11", "buffer-delay", o.elabel(eid), f"edge {eid}: {r.name} put at {r.put_t} with drawn delay {dd} is not retrievable at T={T}")
+                    break
+                if r.got_t is not None and r.got_t < ready:
+                    o.violate("C11", "early-get", o.elabel(eid), f"edge {eid}: {r.name} put at {r.put_t} with delay {dd} was taken at {r.got_t}")
+                    break
+            if const is None and len(d["draws"]) != len(recs):
+                o.violate("C11", "delay-draws", o.elabel(eid), f"edge {eid}: {len(d['draws'])} delay draws for {len(recs)} accepted puts")
+            o.probe("c11_buffer_edge_in_factory_checked")
+        elif er.type == "fleet":
+            from .oracle_fleet import check_fleet
+            check_fleet(_FleetView(o, eid, recs, d["hist"], T))
+            o.probe("c14_fleet_edge_in_factory_checked")
+        else:
+            spec = er.spec
+            slot = (spec.get("item_length", 1) / spec.get("speed", 1)) if er.type == "cconv" else spec.get("delay", 1)
+            Tt = slot * er.cap
+            lab = o.elabel(eid) + "(in factory)"
+            offs = sorted([r for r in recs if r.avail_t is not None], key=lambda r: r.avail_seq)
+            if [r.name for r in offs] != [r.name for r in recs][:len(offs)]:
+                waited = any(r.avail_t is not None and (r.got_t is None or r.got_t > r.avail_t) for r in recs)
+                o.violate("C12", "offer-order", lab, f"edge {eid}: items entered in order {[r.name for r in recs][:12]} but reached the exit in order {[r.name for r in offs][:12]}",
+                          ",after-stall" if waited else ",no-stall")
+            for a, b in zip(recs, recs[1:]):
+                if b.put_t - a.put_t < slot - 1e-9:
+                    o.violate("C12", "spacing", lab, f"edge {eid}: {b.name} entered at {b.put_t}, only {b.put_t - a.put_t} after {a.name} (one item length of travel = {slot})")
+                    break
+            for r in recs:
+                if r.avail_t is not None and r.avail_t < r.put_t + Tt - 1e-9:
+                    o.violate("C12", "min-travel", lab, f"edge {eid}: {r.name} entered at {r.put_t} and was offered at {r.avail_t}, before the belt travel time {Tt}")
+                    break
+            if all(r.got_t == r.avail_t for r in recs if r.avail_t is not None):
+                for r in recs:
+                    if r.avail_t is not None and abs(r.avail_t - (r.put_t + Tt)) > 1e-9 * max(1, Tt):
+                        o.violate("C12", "exact-travel", lab, f"edge {eid}: destination took every item at once, yet {r.name} entered at {r.put_t} was offered at {r.avail_t} (travel time {Tt})")
+                        break
+            o.probe("c12_conveyor_edge_in_factory_checked")
